@@ -873,6 +873,15 @@ int bufr_check_sequence
             next_local_desc = cb->descriptor; /* make sure 206YYY is followed by a local descriptor */
             }
          }
+      else if ((f == 1)&&(cb->flags & FLAG_EXPANDED))
+         {
+/*
+ * already expanded (sequence of a message being decoded): its copies follow instead of
+ * its X descriptors, there is nothing to count
+ */
+         if (y == 0)
+            *flags |= HAS_DELAYED_REPLICATION;
+         }
       else if (f == 1) 
          {
          if (y == 0)
